@@ -20,7 +20,7 @@ RULE = ("random pipelines (vf/pipelines.py: Probe/PlaneWave x potentials x detec
         "4-7 configurations; non-trivial = at least one fftw and one numpy execution were observed by the backend counters and both "
         "precisions ran; distinct = distinct case signature")
 CLAUSES = ["float64-agree:values", "float32-agree:values", "configured-dtype", "fftw-backend-reached", "numpy-backend-reached",
-           "transform-float64-agree", "transform-float32-agree"]
+           "transform-float64-agree", "transform-float32-agree", "reuse-float64-agree", "reuse-float32-agree"]
 QUICK = dict(n=18, time=45)
 THOROUGH = dict(n=700, time=480, shards=16)
 
@@ -37,6 +37,22 @@ def gen(rng, tier):
                 "new": [int(rng.integers(6, 50)), int(rng.integers(6, 50))],
                 "shift": rng.uniform(-5, 5, 2).round(3).tolist(), "sigma": float(rng.uniform(0.2, 2.0)),
                 "efforts": [str(e) for e in rng.choice(EFFORTS, size=2, replace=False)]}
+    if rng.random() < 0.2:
+        # one exit wave consumed several times (second CTF, intensity, diffraction pattern after a transform)
+        d = P.gen_pipeline(rng, small=True, allow_ctf=False, allow_dists=False)
+        d["builder"] = "plane"
+        d.setdefault("normalize", False)
+        d.setdefault("tilt", [0.0, 0.0])
+        for k in ("scan", "semiangle", "aberrations", "defocus_dist", "tilt_dist"):
+            d.pop(k, None)
+        d["detectors"] = [{"type": "waves"}]
+        d["exit_planes"] = None
+        d["kind"] = "reuse"
+        d["lazy"] = bool(rng.random() < 0.4)
+        d["defoci"] = rng.uniform(-300, 300, int(rng.integers(2, 4))).round(2).tolist()
+        d["order"] = [int(i) for i in rng.permutation(4)]
+        d["efforts"] = [str(e) for e in rng.choice(EFFORTS, size=2, replace=False)]
+        return d
     d = P.gen_pipeline(rng, small=True)
     d["kind"] = "pipeline"
     d["lazy"] = bool(rng.random() < 0.4)
@@ -129,6 +145,28 @@ def _transform(case, prec):
     return w.downsample(max_angle="valid").array
 
 
+def _reuse(case):
+    """Exit wave used by several consumers, in a case-defined order; returns the list of results."""
+    w = P.run(case, lazy=case["lazy"])
+    if isinstance(w, list):
+        w = w[0]
+    outs = {}
+    for step in case["order"]:
+        if step == 0:
+            outs[0] = w.apply_ctf(defocus=case["defoci"][0], semiangle_cutoff=25.0).intensity()
+        elif step == 1:
+            outs[1] = w.apply_ctf(defocus=case["defoci"][-1], Cs=-5e4, semiangle_cutoff=30.0).intensity()
+        elif step == 2:
+            outs[2] = w.intensity()
+        else:
+            outs[3] = w.diffraction_patterns(max_angle="valid")
+    res = [outs[k] for k in sorted(outs)]
+    if case["lazy"]:
+        import dask
+        res = [r.compute(progress_bar=False, scheduler="synchronous") for r in res]
+    return res
+
+
 def check(ctx, case):
     results = {}
     before = dict(ctx.monitors)
@@ -140,6 +178,8 @@ def check(ctx, case):
                 if case["kind"] == "pipeline":
                     out = P.run(case, lazy=case["lazy"])
                     out = P.compute(out, scheduler="synchronous") if case["lazy"] else out
+                elif case["kind"] == "reuse":
+                    out = _reuse(case)
                 else:
                     out = _transform(case, cfg[2])
                 dn = ctx.monitors.get("fftw-plan-created", 0) - n0
@@ -174,10 +214,22 @@ def check(ctx, case):
             if cfg == ("numpy", None, "float64"):
                 continue
             scale = max(float(np.abs(r).max()), 1e-30)
-            pre = "transform-" if case["kind"] == "transform" else ""
+            pre = "transform-" if case["kind"] == "transform" else ("reuse-" if case["kind"] == "reuse" else "")
             single = cfg[2] == "float32" or o.dtype in (np.float32, np.complex64) or r.dtype in (np.float32, np.complex64)
             if not single:
                 ctx.close(o, r, pre + "float64-agree" + ("" if pre else ":values"), rtol=1e-9, atol=1e-10 * scale, cfg=cfg)
             else:
                 ctx.close(o, r, pre + "float32-agree" + ("" if pre else ":values"), rtol=3e-4, atol=3e-5 * scale, cfg=cfg)
     ctx.nontrivial(True)
+
+
+def fixed_cases(tier):
+    cell = {"cell": [5.43, 5.43, 5.43], "symbols": ["Si", "Si", "Si", "Si"],
+            "positions": [[0, 0, 0], [2.7, 2.7, 0], [1.35, 1.35, 1.35], [4.0, 4.0, 4.0]]}
+    out = []
+    for lazy in (False, True):
+        out.append({"kind": "reuse", "builder": "plane", "cell": cell, "gpts": [24, 20], "energy": 100e3, "slice_thickness": 1.5,
+                    "projection": "infinite", "potential": {"kind": "atoms"}, "exit_planes": None,
+                    "detectors": [{"type": "waves"}], "normalize": False, "tilt": [0.0, 0.0], "lazy": lazy,
+                    "defoci": [0.0, 120.0, -250.0], "order": [0, 1, 2, 3], "efforts": ["FFTW_ESTIMATE", "FFTW_MEASURE"]})
+    return out
